@@ -266,7 +266,7 @@ impl Check for C01 {
 		"F3 history".into()
 	}
 	fn rule(&self) -> String {
-		"F1: {static, streaming} x length {0,1,2,5} x slice {none, empty, inner, inverted, beyond the data} x loop {none, whole, empty, inverted, beyond, end==len} x sound rate x start position {0,1,len-1,len,len+3} x reverse x rate {1,-1,0,0.5,3} x 18 handle commands with boundary arguments; FX: 14 extreme finite values (1e9, 1e300, +-1e12 s, +-1e30 dB, 1e15 samples) x {static, streaming}, one per case; F2: 9 effect families, each parameter at documented min / max / default / 0 / just outside, x sample rate {8000, 44100, 192000} x 5 input signals x callbacks {1, ibs, 2*ibs+1}; F3: all API histories to depth 4 (5) over 16 letters with all capacities 1, and with all capacities 0; F4: every depth-3 history with 1..8 channels (mono must be the mean of the stereo rendering, extra channels silent); F6: every setter of every built-in effect handle, value tweened between every ordered pair of a 3..4-point lattice (increasing and decreasing) with tweens of 0 / 1.5 / 6 internal buffers; F5: the output stage alone: DC frames (l, r) over {0, +-0.5, +-1.5, +-3e38}^2 x volume {0, +20, +1000 dB} x 1..8 channels. Oracle = the callback monitors. non-trivial = callbacks that produced non-silent audio or ran after at least one command".into()
+		"F1: {static, streaming} x length {0,1,2,5} x slice {none, empty, inner, inverted, beyond the data} x loop {none, whole, empty, inverted, beyond, end==len} x sound rate x start position {0,1,len-1,len,len+3} x reverse x rate {1,-1,0,0.5,3} x 18 handle commands with boundary arguments; FX: 14 extreme finite values (1e9, 1e300, +-1e12 s, +-1e30 dB, 1e15 samples) x {static, streaming}, one per case; F2: 9 effect families, each parameter at documented min / max / default / 0 / just outside, x sample rate {8000, 44100, 192000} x 5 input signals x callbacks {1, ibs, 2*ibs+1}, then the device rate changed to each of the other two rates and the same callbacks again; F3: all API histories to depth 4 (5) over 16 letters with all capacities 1, and with all capacities 0; F4: every depth-3 history with 1..8 channels (mono must be the mean of the stereo rendering, extra channels silent); F6: every setter of every built-in effect handle, value tweened between every ordered pair of a 3..4-point lattice (increasing and decreasing) with tweens of 0 / 1.5 / 6 internal buffers; F5: the output stage alone: DC frames (l, r) over {0, +-0.5, +-1.5, +-3e38}^2 x volume {0, +20, +1000 dB} x 1..8 channels. Oracle = the callback monitors. non-trivial = callbacks that produced non-silent audio or ran after at least one command".into()
 	}
 	fn assumptions(&self) -> Vec<String> {
 		vec![
@@ -693,6 +693,24 @@ fn f2(which: usize, sr: u32, ctx: &mut Ctx) {
 					let rep = rig::callback(&mut m, &mut buf, n, 2);
 					if !rep.ok() {
 						return Ok(Some(rep));
+					}
+				}
+				// the device rate changes under the running effect (up and down), then the same callbacks again
+				for r2 in [8000u32, 44100, 192000] {
+					if r2 == sr {
+						continue;
+					}
+					let mut renderer = m.backend_mut().renderer.take().unwrap();
+					let r = catch(|| renderer.on_change_sample_rate(r2));
+					m.backend_mut().renderer = Some(renderer);
+					if let Err(p) = r {
+						return Ok(Some(rig::CbReport { panic: Some(format!("on_change_sample_rate({}): {}", r2, p)), ..Default::default() }));
+					}
+					for n in [1, ibs, 2 * ibs + 1] {
+						let rep = rig::callback(&mut m, &mut buf, n, 2);
+						if !rep.ok() {
+							return Ok(Some(rig::CbReport { panic: rep.panic.clone().map(|p| format!("after a sample-rate change: {}", p)), ..rep }));
+						}
 					}
 				}
 				Ok::<_, ()>(None)
